@@ -301,6 +301,30 @@ PROPS = {
         level_text="Generated search with boundary-biased generators against exact integer arithmetic on both multiplication code paths and both precision builds. Exploration only.",
         level_note="trusts __int128 arithmetic of the compiler, long double for the rational crossing point, rapidcheck",
     ),
+    "C20": dict(
+        bins={"main": dict(tc="gcc", src="prop_C20.cpp", variants=["plain"])},
+        parts=[
+            dict(name="trim", workers={Q: 4, T: 4}, cases={Q: 150000, T: 6000000}),
+            dict(name="simplify", workers={Q: 4, T: 4}, cases={Q: 150000, T: 6000000}),
+            dict(name="rdp", workers={Q: 4, T: 4}, cases={Q: 150000, T: 6000000}),
+            dict(name="misc", workers={Q: 4, T: 4}, cases={Q: 100000, T: 4000000}),
+        ],
+        rule=("paths of 0-12 points: degenerate (repeated points, shared coordinates, collinear runs, near-duplicates), "
+              "random, all-collinear with outliers, and closed loops given with the start repeated at the end; magnitudes "
+              "3 .. 2^30; closed and open; epsilon in {0, 0-2, comparable to the features, huge}. TrimCollinear: in-order "
+              "subsequence, open end points kept, exact __int128 area preserved for closed paths, and for inputs without "
+              "repeated points / reversals exactly the corner vertices, no collinear triple left, idempotent. SimplifyPath "
+              "(>= 4 points): subsequence, end points kept, every remaining vertex farther than epsilon from the line "
+              "through its neighbours. RamerDouglasPeucker: subsequence, end points kept, every removed vertex within "
+              "epsilon of the line through its surviving neighbours. StripDuplicates, StripNearEqual, TranslatePath, Length, "
+              "GetBounds, Ellipse against their defining equations. Non-trivial = input of >= 4 points from which some but "
+              "not all vertices are removed"),
+        assumptions=["SimplifyPath's no-removable-vertex clause is judged on inputs of >= 4 points (KF-C20-b)",
+                     "StripNearEqual cases where a pair distance equals the threshold to 1e-9 relative are skipped"],
+        technique="property-based testing (rapidcheck): contract predicates and defining equations on generated degenerate paths",
+        level_text="Generated search over small degenerate paths with exact contract predicates. Exploration only.",
+        level_note="trusts the predicates in prop_C20.cpp (exact __int128 / long double), g++, rapidcheck",
+    ),
     "C02": dict(
         bins={"main": dict(tc="gcc", src="prop_C02.cpp", variants=["plain"])},
         parts=[
